@@ -14,6 +14,10 @@ from core import slit, zlit, clist, blit
 
 IMPORTS = "Require Import PW.model.HeaderCodec."
 MAX_TIME = 253402300800
+# case class of the monitor: a parameter value ending in a backslash that is
+# followed by a further parameter does not read back.  (A known finding until
+# _parseparam was repaired -- it counted quotes instead of scanning; the key
+# is kept, the class is an ordinary violation.)
 KNOWN_KEY = "param-backslash-before-next-param"
 
 # plain decimal grammar of the float installed for the correspondence runs
@@ -265,6 +269,26 @@ def gen_param_value(rng, maxlen=5):
 
 PARAM_KEYS = ["a", "filename", "fname", "charset", "file_name", "b", "x-y",
               "q", "boundary"]
+# ends of a value that matter to a splitter: backslashes (rendered doubled,
+# so the closing quote follows a backslash), quotes (rendered as backslash
+# quote), and their mixtures, with ';' and blanks around
+PARAM_TAILS = ["\\", "\\\\", "\\\\\\", '"', '\\"', '"\\', '\\\\"', '"\\\\',
+               ';\\', '\\;', '; \\', '";', ';"', '"; b="', '\\"; b="c', " \\",
+               "\\ ", '""', '"\\"', "=\\", ",\\"]
+
+
+def gen_backslash_dict(rng):
+    """2..4 parameters; every value but (perhaps) the last one ends in a
+    backslash / quote mixture, so the next parameter follows it directly"""
+    keys = rng.sample(PARAM_KEYS, rng.randrange(2, 5))
+    out = {}
+    for pos, key in enumerate(keys):
+        body = rand_text(rng, PARAM_ALPHA, 3)
+        if pos < len(keys) - 1 or rng.random() < 0.5:
+            out[key] = body + rng.choice(PARAM_TAILS)
+        else:
+            out[key] = body + rng.choice(["x", "b", "é"])
+    return out
 
 
 def mutate_date(rng, text):
@@ -563,9 +587,15 @@ def run(ctx):
     for _ in range(500 if quick else 8000):
         keys = rng.sample(PARAM_KEYS, rng.randrange(1, 5))
         dicts.append({k: gen_param_value(rng) for k in keys})
-    dicts.append({"a": "x\\", "filename": "b"})           # the known case
+    for _ in range(300 if quick else 5000):
+        dicts.append(gen_backslash_dict(rng))
+    for tail in PARAM_TAILS:                # every tail in front of a parameter
+        dicts.append({"a": "x" + tail, "filename": "b"})
+        dicts.append({"a": tail, "filename": tail, "b": "c" + tail})
+    dicts.append({"a": "x\\", "filename": "b"})   # witness of the old finding
     dicts.append({"a": "x\\"})
     dicts.append({"a": "b", "filename": "x\\"})
+    dicts.append({"a": "trail\\", "filename": "f.txt", "b": "\\", "q": "\\\\"})
     rendered = []
     for params in dicts:
         main = rng.choice(["form-data", "attachment", "text/html", "x y", ""])
@@ -591,8 +621,10 @@ def run(ctx):
                        for k, v in params.items()})
         ctx.case(("param", main, tuple(params.items())), True,
                  {"codec": "param", "params": params, "stored": stored})
+        vals = list(params.values())
+        if any(v.endswith("\\") for v in vals[:-1]):
+            ctx.count("param:backslash in front of a further parameter")
         if back != want:
-            vals = list(params.values())
             if any(v.endswith("\\") for v in vals[:-1]):
                 ctx.violation(KNOWN_KEY, {"main": main, "params": params,
                                           "stored": stored,
@@ -660,7 +692,9 @@ def run(ctx):
         "negotiation: 1..6 items from a name pool with q absent / int / "
         "1-3 decimals; parameters: all values of length <=3 over "
         "{a,B,space,;,\",\\,=,comma,e-acute} (quick: a sample), pairs of "
-        "those, random dicts of 1..4 entries incl. non-Latin-1 text; each "
+        "those, random dicts of 1..4 entries incl. non-Latin-1 text, dicts "
+        "of 2..4 entries whose values end in backslash / quote mixtures in "
+        "front of further parameters; each "
         "parser also gets a malformed stream (literal corner strings, "
         "random strings over the separators, arbitrary Unicode, thousands "
         "of separators). A case is distinct by its codec and input text; "
